@@ -1656,6 +1656,11 @@ func (interpreter *Interpreter) declareNonEnumCompositeValue(
 				compositeType,
 				constructorGenerator,
 			)
+			// The contract value might not exist (yet), e.g. when the contract was deployed
+			// in the current execution: contract updates are not observable during execution.
+			if compositeValue, ok := contractValue.(*CompositeValue); ok && compositeValue == nil {
+				return nil
+			}
 			contractValue.SetNestedVariables(nestedVariables)
 			return contractValue
 		})
